@@ -36,8 +36,8 @@ type c04vSeg struct {
 type c04vServer struct {
 	beh    func(id string) c04beh
 	wstall time.Duration // >0: any Write may block for that long (environment choice, one deviation each)
-	seen  [][]string // per connection: request ids whose bytes reached the wire, in order
-	conns []*c04vConn
+	seen   [][]string    // per connection: request ids whose bytes reached the wire, in order
+	conns  []*c04vConn
 }
 
 type c04vConn struct {
